@@ -1,6 +1,12 @@
 //! I->S recorder: drives the real decoders with long random texts (valid
 //! encodings, mutated encodings, random characters), one event per public
-//! call.  usage: record_basen <out.ndjson> <seed> <max-events>
+//! call; and, symbol by symbol, the real SymbolConverters (one event per
+//! `process_symbol` / `process_tail`), `IterScanner::convert_token` /
+//! `convert_entry` and `Nsec3Salt::scan` with the same texts written with
+//! every kind of symbol (plain, simple escape, decimal escape).
+//! usage: record_basen <out.ndjson> <seed> <max-events>
+use domain::base::scan::{ConvertSymbols, EntrySymbol, IterScanner, Scanner, Symbol};
+use domain::rdata::nsec3::Nsec3Salt;
 use domain::utils::{base16, base32, base64};
 use serde_json::{json, Value};
 use std::panic::{catch_unwind, AssertUnwindSafe};
@@ -12,6 +18,175 @@ enum Dec {
     B64(base64::Decoder<Vec<u8>>),
 }
 
+/// An entry symbol as logged: {"k": "c"|"s"|"d"|"e", "v": n}
+fn sym_json(s: &EntrySymbol) -> Value {
+    match s {
+        EntrySymbol::Symbol(Symbol::Char(c)) => json!({"k": "c", "v": *c as u32}),
+        EntrySymbol::Symbol(Symbol::SimpleEscape(v)) => json!({"k": "s", "v": *v}),
+        EntrySymbol::Symbol(Symbol::DecimalEscape(v)) => json!({"k": "d", "v": *v}),
+        EntrySymbol::EndOfToken => json!({"k": "e", "v": 0}),
+    }
+}
+
+fn res_of(r: Result<Vec<u8>, ()>) -> Value {
+    match r {
+        Ok(v) => json!({"ok": json_bytes(&v)}),
+        Err(_) => json!({"err": true}),
+    }
+}
+
+/// Write `text` with a random kind of symbol per character, a few odd
+/// symbols thrown in.  `parsed`: only symbols a string token can express
+/// (`\X` for printable non-digit X; no plain backslash).
+fn symbols_for(rng: &mut Rng, text: &[char], parsed: bool, tokens: bool) -> Vec<EntrySymbol> {
+    let mut v = vec![];
+    let escapable = |c: char| c.is_ascii() && (c as u8) >= 0x20 && (c as u8) < 0x7F && !c.is_ascii_digit();
+    let escapes = rng.chance(2, 3);
+    for &c in text {
+        if tokens && rng.chance(1, 8) {
+            v.push(EntrySymbol::EndOfToken);
+        }
+        let k = if escapes { rng.below(12) } else { 99 };
+        let s = match k {
+            0 if escapable(c) || (!parsed && c.is_ascii()) => Symbol::SimpleEscape(c as u8),
+            1 if c.is_ascii() && rng.chance(1, 3) => Symbol::DecimalEscape(c as u8),
+            _ if c == '\\' => Symbol::SimpleEscape(b'\\'),
+            _ => Symbol::Char(c),
+        };
+        v.push(EntrySymbol::Symbol(s));
+        if escapes && rng.chance(1, 40) {
+            let o = rng.next() as u8;
+            v.push(EntrySymbol::Symbol(match rng.below(3) {
+                0 => Symbol::DecimalEscape(o),
+                1 if !parsed || escapable(o as char) => Symbol::SimpleEscape(o),
+                _ => Symbol::Char(if o == b'\\' { 'é' } else { o as char }),
+            }));
+        }
+    }
+    v
+}
+
+/// the string tokens that stand for the symbols
+fn written(esyms: &[EntrySymbol]) -> Vec<String> {
+    let mut toks = vec![String::new()];
+    for s in esyms {
+        let t = toks.last_mut().unwrap();
+        match s {
+            EntrySymbol::EndOfToken => {
+                if !t.is_empty() {
+                    toks.push(String::new());
+                }
+            }
+            EntrySymbol::Symbol(Symbol::Char(c)) => t.push(*c),
+            EntrySymbol::Symbol(Symbol::SimpleEscape(v)) => {
+                t.push('\\');
+                t.push(*v as char);
+            }
+            EntrySymbol::Symbol(Symbol::DecimalEscape(v)) => t.push_str(&format!("\\{:03}", v)),
+        }
+    }
+    if toks.last().unwrap().is_empty() {
+        toks.pop();
+    }
+    toks
+}
+
+fn conv_events<C: ConvertSymbols<EntrySymbol, std::io::Error>>(
+    w: &mut TraceWriter,
+    mut c: C,
+    esyms: &[EntrySymbol],
+) {
+    for s in esyms {
+        let r = catch_unwind(AssertUnwindSafe(|| {
+            c.process_symbol(*s).map(|d| d.map(|d| d.to_vec()).unwrap_or_default()).map_err(|_| ())
+        }));
+        let mut e = sym_json(s);
+        match r {
+            Ok(r) => {
+                let stop = r.is_err();
+                e["ev"] = json!("csym");
+                e["res"] = res_of(r);
+                w.event(e);
+                if stop {
+                    return; // a scanner abandons the conversion here
+                }
+            }
+            Err(_) => {
+                e["ev"] = json!("csym");
+                e["res"] = json!({"panic": true});
+                w.event(e);
+                return;
+            }
+        }
+    }
+    let r = catch_unwind(AssertUnwindSafe(|| {
+        c.process_tail().map(|d| d.map(|d| d.to_vec()).unwrap_or_default()).map_err(|_| ())
+    }));
+    w.event(json!({"ev": "ctail", "res": match r { Ok(r) => res_of(r), Err(_) => json!({"panic": true}) }}));
+}
+
+/// One run at the symbol level.
+fn symbol_run(w: &mut TraceWriter, rng: &mut Rng, codec: &'static str, text: &[char]) {
+    match rng.below(4) {
+        0 | 1 => {
+            // the converter driven call by call, any symbol, token boundaries
+            let esyms = symbols_for(rng, text, false, true);
+            w.event(json!({"ev": "cnew", "codec": codec}));
+            match codec {
+                "b16" => conv_events(w, base16::SymbolConverter::new(), &esyms),
+                "b32" => conv_events(w, base32::SymbolConverter::new(), &esyms),
+                _ => conv_events(w, base64::SymbolConverter::new(), &esyms),
+            }
+        }
+        2 => {
+            // IterScanner over the written form
+            let entry = rng.chance(1, 2);
+            let esyms = symbols_for(rng, text, true, entry);
+            let toks = written(&esyms);
+            if toks.is_empty() {
+                return;
+            }
+            let r = catch_unwind(AssertUnwindSafe(|| {
+                let mut sc = IterScanner::<_, Vec<u8>>::new(toks.clone());
+                let r = match (codec, entry) {
+                    ("b16", true) => sc.convert_entry(base16::SymbolConverter::new()),
+                    ("b32", true) => sc.convert_entry(base32::SymbolConverter::new()),
+                    (_, true) => sc.convert_entry(base64::SymbolConverter::new()),
+                    ("b16", false) => sc.convert_token(base16::SymbolConverter::new()),
+                    ("b32", false) => sc.convert_token(base32::SymbolConverter::new()),
+                    (_, false) => sc.convert_token(base64::SymbolConverter::new()),
+                };
+                r.map_err(|_| ())
+            }));
+            w.event(json!({"ev": "iscan", "codec": codec, "via": if entry { "entry" } else { "token" },
+                           "syms": esyms.iter().map(sym_json).collect::<Vec<_>>(),
+                           "res": match r { Ok(r) => res_of(r), Err(_) => json!({"panic": true}) }}));
+        }
+        _ => {
+            // the NSEC3 salt: "-" or Base16, one token
+            let mut t: Vec<char> = if codec == "b16" { text.to_vec() } else { vec![] };
+            t.truncate(40);
+            match rng.below(5) {
+                0 => t = vec!['-'],
+                1 => t.insert(0, '-'),
+                2 => t.push('-'),
+                _ => {}
+            }
+            let esyms = symbols_for(rng, &t, true, false);
+            let toks = written(&esyms);
+            if toks.len() != 1 {
+                return;
+            }
+            let r = catch_unwind(AssertUnwindSafe(|| {
+                let mut sc = IterScanner::<_, Vec<u8>>::new(toks.clone());
+                Nsec3Salt::scan(&mut sc).map(|s: Nsec3Salt<Vec<u8>>| s.as_slice().to_vec()).map_err(|_| ())
+            }));
+            w.event(json!({"ev": "salt", "syms": esyms.iter().map(sym_json).collect::<Vec<_>>(),
+                           "res": match r { Ok(r) => res_of(r), Err(_) => json!({"panic": true}) }}));
+        }
+    }
+}
+
 fn main() {
     quiet_panics();
     let args: Vec<String> = std::env::args().collect();
@@ -19,8 +194,9 @@ fn main() {
     let mut rng = Rng::new(args[2].parse().unwrap_or(1));
     let max: u64 = args[3].parse().unwrap_or(1500);
     let odd = ['=', '!', ' ', 'é', 'W', 'g', 'z', '-', '_'];
-    while w.n < max {
-        let codec = *rng.pick(&["b16", "b32", "b64"]);
+    let mut sym_events: u64 = 0; // the symbol-level runs come on top of the decoder budget
+    while w.n - sym_events < max {
+        let codec: &'static str = *rng.pick(&["b16", "b32", "b64"]);
         // text: encode random octets, then maybe mutate
         let n = if rng.chance(1, 4) { rng.below(60) } else { rng.below(12) } as usize;
         let octs = rng.bytes(n);
@@ -58,6 +234,16 @@ fn main() {
                 text.insert(i, *rng.pick(&odd));
             }
             _ => {}
+        }
+        for _ in 0..3 {
+            let n0 = w.n;
+            let mut short = text.clone();
+            if rng.chance(2, 3) {
+                // a cut at a group boundary keeps most of the short texts valid
+                short.truncate(4 * (1 + rng.below(5) as usize));
+            }
+            symbol_run(&mut w, &mut rng, codec, &short);
+            sym_events += w.n - n0;
         }
         w.event(json!({"ev": "new", "codec": codec}));
         let mut d = match codec {
